@@ -7,17 +7,15 @@ import PromVerif.Lemmas.OMGroup
 namespace PromVerif.Lemmas.OM
 open PromVerif.Py PromVerif.Model.ParseCore PromVerif.Model.Validation PromVerif.Model.OMParse PromVerif.Generated.OMParse
 
-/-- a native-histogram sample as `_parse_nh_sample` returns it (no value; the suffix rule excludes `_bucket`), whose
-name does not end in `_gsum` -/
-def NhLine (s : OSample) : Prop := s.value = none ∧ endsWith sBucket s.name = false ∧ endsWith sGsum s.name = false
+/-- a native-histogram sample as `_parse_nh_sample` returns it -/
+def NhLine (s : OSample) : Prop := s.nh.isSome = true
 
 /-- what the fold needs of a tokenised line: its own parsing raised at most ValueError; both readings of a sample
-line raise at most ValueError; the native-histogram reading gives an `NhLine`, the plain reading a sample with labels,
-a value and a timestamp that converts to float -/
+line raise at most ValueError; the native-histogram reading gives a sample carrying a native histogram, the plain
+reading a sample with labels and a value -/
 def LineOK (P : Params) : Line → Prop
   | .bad e => e = .valueError
-  | .sample nh plain => Safe nh ∧ (∀ s, nh = .ok (some s) → NhLine s) ∧ Safe plain ∧
-      ∀ s, plain = .ok s → Plain s ∧ TsOK P s.ts
+  | .sample nh plain => Safe nh ∧ (∀ s, nh = .ok (some s) → NhLine s) ∧ Safe plain ∧ ∀ s, plain = .ok s → Plain s
   | _ => True
 
 def isHist (h : Hdr) : Bool := histTypes.contains (h.typ.getD tUnknown)
@@ -29,10 +27,9 @@ structure Inv (P : Params) (st : St) : Prop where
   plain : ∀ s ∈ st.grp.samples, Plain s ∨ NhLine s
   nameNone : st.hdr.name = none → st.hdr.allowed = []
   hist : ∀ n, st.hdr.name = some n → isHist st.hdr = true → Prefixed n st.hdr.allowed ∧ HistOK n st.grp.samples
-  gts : TsOK P st.grp.groupTs
 
 theorem inv_init (P : Params) : Inv P {} :=
-  ⟨(fun s hs => by cases hs), (fun _ => rfl), (fun n hn => by cases hn), (fun a b h => by cases h)⟩
+  ⟨(fun s hs => by cases hs), (fun _ => rfl), (fun n hn => by cases hn)⟩
 
 theorem safe_applyMeta (h : Hdr) (kind c rest : Str) : Safe (applyMeta h kind c rest) := by
   intro e he
@@ -115,18 +112,6 @@ theorem sampleChecks_nh (P : Params) (h : Hdr) (gr : Grp) (s : OSample) :
   unfold sampleChecks
   rw [hflag]
   rfl
-
-theorem endsWith_of_drop (suf name : Str) (k : Nat) (h : name.drop k = suf) : endsWith suf name = true := by
-  unfold endsWith
-  have : name = name.take k ++ suf := by rw [← h]; exact (List.take_append_drop k name).symm
-  rw [this, List.reverse_append]
-  exact List.isPrefixOf_iff_prefix.mpr (List.prefix_append _ _)
-
-theorem nhIn_of_nhLine (n : Str) (s : OSample) (h : NhLine s) : NhIn n s := by
-  obtain ⟨hv, hb, hg⟩ := h
-  refine ⟨hv, fun e => ?_, fun e => ?_⟩
-  · rw [endsWith_of_drop _ _ _ e] at hb; cases hb
-  · rw [endsWith_of_drop _ _ _ e] at hg; cases hg
 
 theorem groupStep_samples_sub (P : Params) (gr gr' : Grp) (n t : Str) (s : OSample) (h : groupStep P gr n t s = .ok gr') :
     (∀ x ∈ gr'.samples, x ∈ gr.samples ∨ x = s) ∧ gr'.groupTs = s.ts := by
@@ -219,7 +204,7 @@ theorem step_safe (P : Params) (hnan : NaNLiteral P) (st : St) (l : Line) (hi : 
             unfold stepSample at he
             simp only [Bool.not_true, Bool.and_false, Bool.false_eq_true, if_false, sampleChecks_nh] at he
             cases he
-          · obtain ⟨hP, hT⟩ := hpl s hplain
+          · have hP := hpl s hplain
             unfold stepSample at he
             split at he
             · cases hf : flush P st.glob st.hdr st.grp.samples with
@@ -234,7 +219,7 @@ theorem step_safe (P : Params) (hnan : NaNLiteral P) (st : St) (l : Line) (hi : 
                   cases hsc : sampleChecks P hd {} s false with
                   | error e' =>
                     rw [hsc] at he; cases he
-                    exact safe_sampleChecks P hd {} s c hc hP hnan (fun a b h => by cases h) hT _ hsc
+                    exact safe_sampleChecks P hd {} s c hc hP hnan _ hsc
                   | ok gr => rw [hsc] at he; cases he
             · rename_i hno
               have hall : st.hdr.allowed.contains s.name = true := by
@@ -249,16 +234,16 @@ theorem step_safe (P : Params) (hnan : NaNLiteral P) (st : St) (l : Line) (hi : 
               cases hsc : sampleChecks P st.hdr st.grp s false with
               | error e' =>
                 rw [hsc] at he; cases he
-                exact safe_sampleChecks P st.hdr st.grp s n hn hP hnan hi.gts hT _ hsc
+                exact safe_sampleChecks P st.hdr st.grp s n hn hP hnan _ hsc
               | ok gr => rw [hsc] at he; cases he
   · -- the invariant
     intro st' hs
     obtain ⟨_, hc⟩ := stepLine_ok P st st' l hs
     rcases hc with ⟨_, rfl⟩ | ⟨kind, cand, rest, rfl, hm⟩ | ⟨nh, plain, s, isNh, rfl, hp, hss⟩
-    · exact ⟨hi.plain, hi.nameNone, hi.hist, hi.gts⟩
+    · exact ⟨hi.plain, hi.nameNone, hi.hist⟩
     · rcases stepMeta_ok P st st' _ _ _ hm with ⟨_, g, hd, _, ha, rfl⟩ | ⟨hn, hd, ha, rfl⟩
       · have hnm : hd.name = some cand := by rw [applyMeta_name _ _ _ _ _ ha]
-        refine ⟨(fun s hs => by cases hs), (fun h0 => by rw [hnm] at h0; cases h0), ?_, (fun a b h => by cases h)⟩
+        refine ⟨(fun s hs => by cases hs), (fun h0 => by rw [hnm] at h0; cases h0), ?_⟩
         intro n hn hh
         have : n = cand := by rw [hnm] at hn; exact (Option.some.inj hn).symm
         subst this
@@ -271,7 +256,7 @@ theorem step_safe (P : Params) (hnan : NaNLiteral P) (st : St) (l : Line) (hi : 
           | nil => rfl
           | cons a b =>
             rw [stepMeta_late P st kind cand rest hn (by rw [hsm]; simp)] at hm; cases hm
-        refine ⟨hi.plain, (fun h0 => by rw [hnm] at h0; cases h0), ?_, hi.gts⟩
+        refine ⟨hi.plain, (fun h0 => by rw [hnm] at h0; cases h0), ?_⟩
         intro n hn' hh
         have : n = cand := by rw [hnm] at hn'; exact (Option.some.inj hn').symm
         subst this
@@ -287,7 +272,7 @@ theorem step_safe (P : Params) (hnan : NaNLiteral P) (st : St) (l : Line) (hi : 
         · simp at c
         · rw [sampleChecks_nh] at hsc
           obtain rfl := Except.ok.inj hsc
-          refine ⟨?_, hi.nameNone, ?_, hi.gts⟩
+          refine ⟨?_, hi.nameNone, ?_⟩
           · intro x hx
             rcases List.mem_append.mp hx with h1 | h1
             · exact hi.plain x h1
@@ -298,13 +283,13 @@ theorem step_safe (P : Params) (hnan : NaNLiteral P) (st : St) (l : Line) (hi : 
             intro x hx
             rcases List.mem_append.mp hx with h1 | h1
             · exact hok x h1
-            · rw [List.mem_singleton.mp h1]; exact Or.inr (nhIn_of_nhLine n s hN)
-      · obtain ⟨hP, hT⟩ := hpl s hplain
+            · rw [List.mem_singleton.mp h1]; exact Or.inr hN
+      · have hP := hpl s hplain
         rcases stepSample_ok P st st' s false hss with ⟨_, g, hd, gr, _, hu, hsc, rfl⟩ | ⟨hno, gr, hsc, rfl⟩
         · obtain ⟨⟨c, hc⟩, hty, _⟩ := unknownHdr_ok s hd hu
           obtain ⟨_, hgs⟩ := sampleChecks_ok2 P hd {} gr s c hc hsc
           obtain ⟨hsub, hgts⟩ := groupStep_samples_sub P {} gr c _ s hgs
-          refine ⟨?_, (fun h0 => by rw [hc] at h0; cases h0), ?_, (by show TsOK P gr.groupTs; rw [hgts]; exact hT)⟩
+          refine ⟨?_, (fun h0 => by rw [hc] at h0; cases h0), ?_⟩
           · intro x hx
             rcases hsub x hx with h1 | rfl
             · cases h1
@@ -324,7 +309,7 @@ theorem step_safe (P : Params) (hnan : NaNLiteral P) (st : St) (l : Line) (hi : 
           obtain ⟨n, hn⟩ := hname
           obtain ⟨hpre, hgs⟩ := sampleChecks_ok2 P st.hdr st.grp gr s n hn hsc
           obtain ⟨hsub, hgts⟩ := groupStep_samples_sub P st.grp gr n _ s hgs
-          refine ⟨?_, hi.nameNone, ?_, (by show TsOK P gr.groupTs; rw [hgts]; exact hT)⟩
+          refine ⟨?_, hi.nameNone, ?_⟩
           · intro x hx
             rcases hsub x hx with h1 | rfl
             · exact hi.plain x h1
